@@ -89,6 +89,10 @@ func Load(repo string) (*Gen, error) {
 
 // FuncKey is the contract key of an ssa function: "document.(*Table).DeleteRow".
 func FuncKey(fn *ssa.Function) string {
+	if par := fn.Parent(); par != nil {
+		// a function literal: key of the enclosing function + "$k" (go/ssa's numbering, source order)
+		return FuncKey(par) + strings.TrimPrefix(fn.Name(), par.Name())
+	}
 	if fn.Pkg == nil {
 		if fn.Object() != nil && fn.Object().Pkg() != nil {
 			return fn.Object().Pkg().Name() + "." + relName(fn)
@@ -124,6 +128,7 @@ func (g *Gen) indexFunctions() {
 			switch m := m.(type) {
 			case *ssa.Function:
 				g.fnByKey[FuncKey(m)] = m
+				g.indexAnon(m)
 			case *ssa.Type:
 				for _, t := range []types.Type{m.Type(), types.NewPointer(m.Type())} {
 					ms := g.Prog.MethodSets.MethodSet(t)
@@ -131,11 +136,20 @@ func (g *Gen) indexFunctions() {
 						f := g.Prog.MethodValue(ms.At(i))
 						if f != nil && f.Synthetic == "" {
 							g.fnByKey[FuncKey(f)] = f
+							g.indexAnon(f)
 						}
 					}
 				}
 			}
 		}
+	}
+}
+
+// indexAnon indexes the function literals of fn (contracts can bind to "Outer$1").
+func (g *Gen) indexAnon(fn *ssa.Function) {
+	for _, a := range fn.AnonFuncs {
+		g.fnByKey[FuncKey(a)] = a
+		g.indexAnon(a)
 	}
 }
 
